@@ -25,6 +25,9 @@ WITH THE SOFTWARE OR THE USE OR OTHER DEALINGS IN THE SOFTWARE.
 
 
 #include "Interpret.h"
+#ifdef OPENSMT_VERIF_HOOKS
+#include <common/VerifHooks.h>
+#endif
 
 #include <api/smt2tokens.h>
 #include <logics/ArithLogic.h>
@@ -1157,6 +1160,9 @@ int Interpret::interpPipe() {
         }
         int rd_chunk = buf_sz - rd_head - 1;
         assert(rd_chunk > 0);
+#ifdef OPENSMT_VERIF_HOOKS
+        rd_chunk = verif::chunkCap(rd_chunk);
+#endif
         int bts_rd = read(STDIN_FILENO, &buf[rd_head], rd_chunk);
         if (bts_rd == 0) {
             // Read EOF
